@@ -37,6 +37,8 @@ type Profile struct {
 	Persistent   bool
 	Deletes      bool
 	MaxSteps     int
+	MultiBias    bool // prefer multi-target Sets
+	VerdictBias  bool // reject often
 }
 
 type sim struct {
@@ -98,7 +100,7 @@ func (g *sim) genChange() string {
 
 func (g *sim) newSet() {
 	k := 1
-	if len(g.targets) > 1 && g.r.Chance(1, 2) {
+	if len(g.targets) > 1 && (g.r.Chance(1, 2) || (g.p.MultiBias && g.r.Chance(2, 3))) {
 		k = g.r.Range(2, len(g.targets))
 		g.tags["multi-target"] = true
 	}
@@ -124,7 +126,7 @@ func (g *sim) newSet() {
 func (g *sim) runOne(id string) {
 	args := []string{"v2.run", id}
 	if strings.HasPrefix(id, "prop:") {
-		if g.p.Verdicts && g.r.Chance(1, 8) {
+		if g.p.Verdicts && (g.r.Chance(1, 8) || (g.p.VerdictBias && g.r.Chance(1, 4))) {
 			args = append(args, "plugin="+g.r.Pick([]string{"bad", "none"}))
 			g.tags["verdict"] = true
 		}
@@ -209,6 +211,9 @@ func Generate(r *rng.R, p Profile) fw.Case {
 	defer g.real.Close()
 	g.do("v2.reset")
 	nT := r.Range(1, p.Targets)
+	if p.MultiBias && p.Targets > 1 {
+		nT = r.Range(2, p.Targets)
+	}
 	for t := 1; t <= nT; t++ {
 		pers := "0"
 		if p.Persistent && r.Chance(1, 6) {
@@ -263,5 +268,9 @@ func Generate(r *rng.R, p Profile) fw.Case {
 	for t := range g.tags {
 		tags = append(tags, t)
 	}
-	return fw.Case{Script: g.script, Tags: tags, Nontrivial: g.tags["write"] && g.nTx > 0}
+	nt := g.tags["write"] && g.nTx > 0
+	if p.MultiBias {
+		nt = nt && (g.tags["multi-target"] || g.tags["verdict"])
+	}
+	return fw.Case{Script: g.script, Tags: tags, Nontrivial: nt}
 }
